@@ -36,14 +36,28 @@ def fixtures():
     class Empty(S.Serializable):
         pass
 
+    class Entity(S.Serializable):           # a base class with fields of its own ...
+        uid: object = None
+        name: object = None
+
+    class Player(Entity):                   # ... and a subclass that only ADDS a field: an object of it has all three
+        score: object = None
+
     class Bag(S.Serializable):              # container-annotated fields whose declared default is not a container: the constructor installs fresh empty
         items: list = None                  # containers, and an application may well set them back to None ("not loaded yet" is not "empty")
         extra: dict = None
     class Opp(S.SerializableEnum):          # string-valued; every member's NAME is another member's VALUE
         NORTH = "SOUTH"
         SOUTH = "NORTH"
-    _fix.update(S=S, Color=Color, Shape=Shape, Facing=Facing, Point=Point, Empty=Empty, Opp=Opp, PointBase=PointBase, Bag=Bag)
+    _fix.update(S=S, Color=Color, Shape=Shape, Facing=Facing, Point=Point, Empty=Empty, Opp=Opp, PointBase=PointBase, Bag=Bag, Entity=Entity, Player=Player)
     return _fix
+
+
+FIELDS = {"Player": ("uid", "name", "score")}
+
+
+def fields_of(cls):
+    return FIELDS.get(cls.__name__) or cls._fields
 
 
 def f32(x):
@@ -92,7 +106,7 @@ def concretise(t):
     if k == "obj":
         cls = F[v]
         o = cls()
-        for name, x in zip(cls._fields, e):
+        for name, x in zip(fields_of(cls), e):
             setattr(o, name, concretise(x))
         return o
     raise KeyError(k)
@@ -142,5 +156,5 @@ def abstract(v):
     if isinstance(v, dict):
         return dict(t="dict", v="", e=[dict(t="kv", v="", e=[abstract(k), abstract(x)]) for k, x in v.items()])
     if isinstance(v, S.Serializable):
-        return dict(t="obj", v=type(v).__name__, e=[abstract(getattr(v, f)) for f in type(v)._fields])
+        return dict(t="obj", v=type(v).__name__, e=[abstract(getattr(v, f)) for f in fields_of(type(v))])
     return A("unknown", type(v).__name__)
